@@ -142,7 +142,12 @@ def run(chk, binary):
         rest = [v for v in valid if not (" | eval r=" in v["text"] or v.get("req"))]
         todo = valid if not quick else vlib.sample(rest, 400, chk.seed) + ev
         nexec = 0
+        hung = {}        # violation key -> count: a text class that hangs is not executed over and over (40 s x 3 per text)
         for q in todo:
+            hkey = "C17:exec:hang:" + q["lang"] + (":" + q["text"].split("[")[1].split("]")[0] if q.get("req") and "[" in q["text"] else "")
+            if hung.get(hkey, 0) >= (1 if q.get("req") else 4):
+                chk.cov["grammar"]["skipped_after_reproduced_hang"] = chk.cov["grammar"].get("skipped_after_reproduced_hang", 0) + 1
+                continue
             try:
                 if q["lang"] == "promql":
                     r = dr.cmd("mquery", promql=q["text"], start=q.get("start", 1699999000), end=q.get("end", 1700003600), step=60, timeout=40)
@@ -173,7 +178,8 @@ def run(chk, binary):
                             dr.ok("init", dir=d, wait_ms=300)
                             put_metrics(dr)
                     if again:
-                        chk.violation("C17:exec:hang:" + q["lang"] + (":" + q["text"].split("[")[1].split("]")[0] if q.get("req") and "[" in q["text"] else ""),
+                        hung[hkey] = hung.get(hkey, 0) + 1
+                        chk.violation(hkey,
                                       "no answer within 40 s for %r%s (reproduced %d of 2 times on a fresh process)" % (
                                           q["text"], " over [%s,%s]" % (q["start"], q["end"]) if q.get("req") else "", again), q)
                     else:
